@@ -315,6 +315,10 @@ class JsonSchemaGenerator:
             if parser.output_options:
                 options = parser.output_options
 
+        if self.mode:
+            # the mode given to the generator selects the view, whatever mode the class itself declares
+            options = options & self.options
+
         for name, field in parser.fields.items():
             value = self.generate_for_field(field, options=options)
             if value is None:
